@@ -19,6 +19,7 @@ import (
 
 func init() {
 	suites["format"] = suite{gen: formatGen, run: formatRun}
+	suites["format03"] = suite{gen: formatGen, run: formatRun}
 }
 
 func observeFormat(o *obsWriter, pfx, src string, lineMode bool) {
